@@ -202,17 +202,19 @@ func sliceUp(ci *concInfo, v ssa.Value, f *ssa.Function) map[ssa.Value]bool {
 		v     ssa.Value
 		f     *ssa.Function
 		depth int
+		path  []int
 	}
-	work := []item{{v, f, 0}}
-	seen := map[ssa.Value]bool{}
+	work := []item{{v, f, 0, nil}}
+	seen := map[string]bool{}
 	for len(work) > 0 {
 		it := work[0]
 		work = work[1:]
-		if seen[it.v] {
+		k := fmt.Sprintf("%p|%v", it.v, it.path)
+		if seen[k] {
 			continue
 		}
-		seen[it.v] = true
-		sl := backSlice(it.v)
+		seen[k] = true
+		sl, pp := backSlicePath(it.v, it.path)
 		for x := range sl {
 			all[x] = true
 			p, ok := x.(*ssa.Parameter)
@@ -229,6 +231,10 @@ func sliceUp(ci *concInfo, v ssa.Value, f *ssa.Function) map[ssa.Value]bool {
 			if idx < 0 || n == nil {
 				continue
 			}
+			paths := pp[p]
+			if len(paths) == 0 {
+				paths = [][]int{nil}
+			}
 			for _, e := range n.In {
 				if e.Site == nil || e.Caller.Func == nil {
 					continue
@@ -243,18 +249,18 @@ func sliceUp(ci *concInfo, v ssa.Value, f *ssa.Function) map[ssa.Value]bool {
 					continue // back into the function of the store through recursion: another activation, not this update
 				}
 				args := e.Site.Common().Args
+				ai := idx
 				if e.Site.Common().IsInvoke() {
 					// receiver is not part of Args for interface calls
 					if idx == 0 {
 						continue
 					}
-					if idx-1 < len(args) {
-						work = append(work, item{args[idx-1], e.Caller.Func, it.depth + 1})
-					}
-					continue
+					ai = idx - 1
 				}
-				if idx < len(args) {
-					work = append(work, item{args[idx], e.Caller.Func, it.depth + 1})
+				if ai < len(args) {
+					for _, pth := range paths {
+						work = append(work, item{args[ai], e.Caller.Func, it.depth + 1, pth})
+					}
 				}
 			}
 		}
